@@ -628,8 +628,20 @@ func (x *Ctx) rejectOn(key string, site ssa.Instruction, c Cmp) bool {
 			continue
 		}
 		seen = true
-		reach := prog.ReachableFrom(b, map[prog.Edge]bool{{From: b, To: otherSucc(b, bad)}: true})
-		if bad == site.Block() || reach[site.Block()] {
+		// reach from the bad edge without starting a new loop iteration: a block that
+		// strictly dominates the test can only be re-entered by going round a loop
+		reach := map[*ssa.BasicBlock]bool{}
+		q := []*ssa.BasicBlock{bad}
+		for len(q) > 0 {
+			c := q[len(q)-1]
+			q = q[:len(q)-1]
+			if reach[c] || (c != b && c.Dominates(b)) || c == b {
+				continue
+			}
+			reach[c] = true
+			q = append(q, c.Succs...)
+		}
+		if reach[site.Block()] {
 			ok = false
 		}
 	}
